@@ -1,8 +1,16 @@
 package main
 
 import (
+	"os"
+
 	"verifharness/c08"
 	"verifharness/drv"
 )
 
-func main() { drv.Main("C08", c08.Run) }
+func main() {
+	if len(os.Args) > 1 && os.Args[1] == "child" {
+		c08.ChildMain(os.Args[2:])
+		return
+	}
+	drv.Main("C08", c08.Run)
+}
